@@ -105,6 +105,10 @@ def run(ctx):
         fa = [x[1] for x in r['ctx'] if x[0] == 'forall']
         return any(all(n in f for n in needles) and not any(b in f for b in ('skip(', 'take(', 'rev(', 'step_by(', 'filter(')) for f in fa)
 
+    def unconditional(r, allowed=()):
+        # the guard is evaluated for every element: no branch condition other than the loop quantifiers (and the listed ones) restricts it
+        return all(x[0] == 'forall' or x in allowed for x in r['ctx'])
+
     def report(name, hits, detail_ok, detail_bad):
         good = [h for h in hits if h[1]['eff'] != 'bypass']
         for h in hits:
@@ -149,20 +153,20 @@ def run(ctx):
     # (4) opening reproduces commitment
     def is_commit_eq(r, a):
         return a[0] == 'cmp' and a[1] == 'Eq' and any(x.startswith('commit(') for x in (a[2], a[3])) and any(x == 'each(%s.commitments)' % S for x in (a[2], a[3]))
-    g4 = report('opening-valid', [h for h in rows_with(is_commit_eq) if forall_over(h[1], 'zip(', '%s.openings' % W, '%s.commitments' % S)],
-                'every (opening, commitment) pair is checked: commit(v, r) == commitment', 'no guard over every (opening, commitment) pair recomputes and compares the commitment')
+    g4 = report('opening-valid', [h for h in rows_with(is_commit_eq) if forall_over(h[1], 'zip(', '%s.openings' % W, '%s.commitments' % S) and unconditional(h[1])],
+                'every (opening, commitment) pair is checked: commit(v, r) == commitment', 'no guard evaluated for every (opening, commitment) pair, unconditionally, recomputes and compares the commitment')
     if g4:
         i, r, a = g4[0]
         c = a[2] if a[2].startswith('commit(') else a[3]
         args_ok = 'each(%s.openings).v' % W in c and 'each(%s.openings).r' % W in c and '%s.generators.pc_gens' % S in c
         rep.check(args_ok, 'R-C06-1', 'R-C06-1/opening-valid/args', 'the commitment is recomputed from that opening\'s value and blinding factors under the statement\'s generators',
                   'the recomputed commitment is %s' % c, ctx.where(p, r['guard'].bb))
-    report('opening-valid/commit-error', [h for h in rows_with(lambda r, a: a[0] == 'succ' and a[1].startswith('commit(')) if forall_over(h[1], '%s.openings' % W)],
+    report('opening-valid/commit-error', [h for h in rows_with(lambda r, a: a[0] == 'succ' and a[1].startswith('commit(')) if forall_over(h[1], '%s.openings' % W) and unconditional(h[1])],
            'an error from commit() is propagated', 'an error from commit() is not propagated')
     # (5) promise <= value
     def is_sub(r, a):
         return a[0] == 'succ' and a[1].startswith('checked_sub(each(%s.openings).v,each(%s.minimum_value_promises))' % (W, S))
-    g5 = report('promise-le-value', [h for h in rows_with(is_sub) if forall_over(h[1], 'zip(', '%s.minimum_value_promises' % S, '%s.openings' % W)],
+    g5 = report('promise-le-value', [h for h in rows_with(is_sub) if forall_over(h[1], 'zip(', '%s.minimum_value_promises' % S, '%s.openings' % W) and unconditional(h[1], (('succ', 'each(%s.minimum_value_promises)' % S),))],
                 'for every (promise, value) pair value.checked_sub(promise) must succeed', 'no guard over every (promise, value) pair checks promise <= value with a checked subtraction of that pair')
     # decomposition consumes the difference
     sites = msm.msm_sites(ctx, p)
